@@ -31,6 +31,7 @@ type simHalf struct {
 	rdl     time.Time
 	rtimer  *time.Timer
 	written int
+	stops   []int // offsets into wire that one Deliver call does not cross (message boundaries marked by the writer)
 }
 
 func newHalf() *simHalf {
@@ -142,6 +143,13 @@ func (c *simConn) PendingOut() int {
 	return len(c.wr.wire)
 }
 
+// Written is the number of bytes this end has written so far (delivered or not).
+func (c *simConn) Written() int {
+	c.wr.mu.Lock()
+	defer c.wr.mu.Unlock()
+	return c.wr.written
+}
+
 // Deliver moves up to n gated bytes written by this end to the peer's read buffer (n<=0: all).
 func (c *simConn) Deliver(n int) int {
 	h := c.wr
@@ -150,10 +158,39 @@ func (c *simConn) Deliver(n int) int {
 	if n <= 0 || n > len(h.wire) {
 		n = len(h.wire)
 	}
+	if len(h.stops) > 0 && n > h.stops[0] {
+		n = h.stops[0]
+	}
 	h.buf = append(h.buf, h.wire[:n]...)
 	h.wire = h.wire[n:]
+	var rest []int
+	for _, st := range h.stops {
+		if st-n > 0 {
+			rest = append(rest, st-n)
+		}
+	}
+	h.stops = rest
 	h.cond.Broadcast()
 	return n
+}
+
+// DeliverThrough hands over everything that is pending, across boundaries (several messages in one segment).
+func (c *simConn) DeliverThrough() int {
+	c.wr.mu.Lock()
+	c.wr.stops = nil
+	c.wr.mu.Unlock()
+	return c.Deliver(0)
+}
+
+// MarkStop makes the current end of the undelivered bytes a boundary: one Deliver call hands over bytes up to the
+// first boundary only (what follows waits for the next call).
+func (c *simConn) MarkStop() {
+	h := c.wr
+	h.mu.Lock()
+	defer h.mu.Unlock()
+	if len(h.wire) > 0 && (len(h.stops) == 0 || h.stops[len(h.stops)-1] != len(h.wire)) {
+		h.stops = append(h.stops, len(h.wire))
+	}
 }
 
 // SetGated puts the bytes this end writes under scheduler control.
